@@ -60,6 +60,11 @@ def gen_spec(rng):
     picks = rng.sample(tables['tracers'], rng.randrange(1, min(3, len(tables['tracers'])) + 1))
     blocks = [{'cat': t['cat'], 'tid': t['tid'], 'nl': rng.randrange(1, 4),
                'unit': rng.choice(['v/v', 'hPa', 'K', 'unitless'])} for t in picks]
+    if rng.random() < 0.4:
+        # diagnostics saved on different windows / from different levels up
+        for b in blocks[1:]:
+            b['start'] = [i0 + rng.randrange(0, 3), j0 + rng.randrange(0, 3),
+                          rng.choice([1, 1, 2, 3])]
     return {'tables': tables, 'nt': nt, 'ni': ni, 'nj': nj, 'start': [i0, j0, 1],
             'blocks': blocks, 'tau0': float(rng.choice([0, 100, 140256, 175320])),
             'dtau': float(rng.choice([1, 24, 744])),
@@ -81,7 +86,8 @@ def doc_of(spec):
             blocks.append({'category': b['cat'], 'tracer': b['tid'], 'unit': b['unit'],
                            'tau0': spec['tau0'] + t * spec['dtau'],
                            'tau1': spec['tau0'] + (t + 1) * spec['dtau'],
-                           'start': tuple(spec['start']), 'data': a, 'reserved': ''})
+                           'start': tuple(b.get('start', spec['start'])), 'data': a,
+                           'reserved': ''})
         times.append(blocks)
     return {'title': spec['title'], 'modelname': spec['modelname'],
             'modelres': tuple(spec['modelres']), 'halfpolar': spec['halfpolar'],
@@ -160,6 +166,15 @@ def gen_op(rng, st):
     if rng.random() < 0.5:
         ops.append({'op': 'chdir', 'to': rng.choice(['root', 'foreign', 'site%d' % fid])})
     ops.append({'op': 'scaled_read', 'fid': fid})
+    if rng.random() < 0.35:
+        # ambient state changes between opens: the tables next to the file are
+        # rewritten (new scale factors / units), the same file is opened again
+        ops.append({'op': 'retable', 'fid': fid,
+                    'scales': [rng.choice([1.0, 1e6, 1e3, 2.0]) for _ in range(8)],
+                    'unit': rng.choice(['ppmv', 'pptv', 'Pa', 'degC'])})
+        ops.append({'op': 'scaled_read', 'fid': fid})
+    if rng.random() < 0.3:
+        ops.append({'op': 'reopen', 'fid': fid})
     for kind in rng.sample(['raw_roundtrip', 'write_read', 'bpch2'], rng.randrange(1, 4)):
         if kind == 'bpch2':
             ops.append({'op': 'bpch2', 'fid': fid})
@@ -275,7 +290,8 @@ def apply(st, op):
         os.makedirs(w.path('foreign'), exist_ok=True)
         write_tables(st.foreign, w.path('foreign'))
     if o == 'mkfile':
-        spec = op['spec']
+        import copy
+        spec = copy.deepcopy(op['spec'])      # retable edits the tables
         d = w.path(op['dir'])
         os.makedirs(d, exist_ok=True)
         doc = doc_of(spec)
@@ -315,6 +331,31 @@ def apply(st, op):
     desc = 'file with %d time blocks, blocks %s, grid %dx%d start %s' % (
         f['spec']['nt'], [(b['cat'], b['tid'], b['nl']) for b in f['spec']['blocks']],
         f['spec']['ni'], f['spec']['nj'], f['spec']['start'])
+    if o == 'retable':
+        tab = f['spec']['tables']
+        for i, t in enumerate(tab['tracers']):
+            t['scale'] = op['scales'][i % len(op['scales'])]
+            t['unit'] = op['unit']
+        write_tables(tab, f['dir'])
+        f['exp'] = expected(f['spec'], f['doc'])
+        w.fault('sidecar_tables_rewritten')
+        return {}
+    if o == 'reopen':
+        # two opens of the same file with unchanged surroundings present the same
+        try:
+            a = canon(_open(f['path']))
+            b = canon(_open(f['path']))
+        except BaseException as e:
+            _viol(st, 'bpch-read-raised', '%s: %s: %s' % (desc, type(e).__name__, e),
+                  error=type(e).__name__)
+            return {}
+        if sorted(a['vars']) != sorted(b['vars']) or any(
+                a['vars'][k]['unit'] != b['vars'][k]['unit'] or
+                not np.array_equal(a['vars'][k]['data'], b['vars'][k]['data'])
+                for k in a['vars'] if k in b['vars']):
+            _viol(st, 'bpch-read-differs', 'second open of the same file presents %s, first '
+                  'open %s; %s' % (sorted(b['vars']), sorted(a['vars']), desc), field='reopen')
+        return {}
     if o == 'scaled_read':
         st.stats['scaled_reads'] += 1
         try:
